@@ -123,7 +123,8 @@ class CoupledClimateNetwork(InteractingNetworks, ClimateNetwork):
                                     node_weight_type=node_weight_type,
                                     silence_level=silence_level)
             InteractingNetworks.__init__(self, self.adjacency,
-                                         directed=self.directed)
+                                         directed=self.directed,
+                                         node_weights=self.node_weights)
         else:
             print("The two observables (layers) have to have the same number "
                   "of temporal sampling points!")
